@@ -314,10 +314,12 @@ impl Model {
     }
 
     fn input_keys(t: &TxInfo) -> Vec<Key> {
-        t.coins
+        t.spend_order
             .iter()
-            .map(|(u, _)| Key::Coin(*u))
-            .chain(t.msgs.iter().map(|m| Key::Msg(m.nonce)))
+            .map(|r| match r {
+                crate::snap::InRef::Coin(u) => Key::Coin(*u),
+                crate::snap::InRef::Msg(n) => Key::Msg(*n),
+            })
             .collect()
     }
 
